@@ -3,7 +3,7 @@ import json, os, subprocess
 import common
 from common import tlc, tlc_ok, tlc_must_fail, build_driver, run_driver, judge, ToolError
 
-TIERS = {"quick": dict(mc="MC_Json_quick.cfg", rand=4000), "thorough": dict(mc="MC_Json_thorough.cfg", rand=200000)}
+TIERS = {"quick": dict(mc="MC_Json_quick.cfg", rand=20000), "thorough": dict(mc="MC_Json_thorough.cfg", rand=200000)}
 
 
 def run_and_judge(label, cases, work, ev, drv):
